@@ -27,6 +27,7 @@ PURE_GETTERS = {"to_be_bytes", "to_le_bytes", "to_bits", "to_bytes", "size", "is
 # ASSUMED values of dependency constants (dusk-bls12_381's `impl PrimeField for BlsScalar`: NUM_BITS = 255, CAPACITY = NUM_BITS - 1;
 # integer widths of the 64-bit target)
 DEP_CONSTS = {"BlsScalar::CAPACITY": 254, "BlsScalar::NUM_BITS": 255, "usize::BITS": 64, "u64::BITS": 64, "u32::BITS": 32}
+DEP_CONSTS_U64 = {"u64::MAX": 0xFFFFFFFFFFFFFFFF}        # become U64-tagged values (the class is defined below)
 
 
 # integer helper methods: uninterpreted binary functions when an operand is symbolic
@@ -37,6 +38,20 @@ PURE_BINARY = {"saturating_sub", "saturating_add", "wrapping_sub", "wrapping_add
 
 class OutsideFragment(Exception):
     pass
+
+
+M64 = 0xFFFFFFFFFFFFFFFF
+
+
+class U64(int):
+    """a concrete integer KNOWN to be a u64 (a limb of a field element, u64::MAX, or computed from such): only these get the width-dependent
+    operations (`!`, wrapping shifts, truncating `<<`); plain ints of unknown width do not"""
+
+    def __new__(cls, v):
+        return int.__new__(cls, int(v) & M64)
+
+    def __repr__(self):
+        return f"{int(self)}u64"
 
 
 class AstLost(Exception):
@@ -895,6 +910,8 @@ class Interp:
             return VOpaque("fn:" + last2)      # a function named as a value (e.g. passed to `.map`)
         if last2 in DEP_CONSTS:
             return DEP_CONSTS[last2]           # constants of the dependencies whose values are fixed by their source (listed)
+        if last2 in DEP_CONSTS_U64:
+            return U64(DEP_CONSTS_U64[last2])
         if len(segs) == 2 and segs[1].isupper() and segs[0] not in ("Self",):
             return Sym(last2)                  # an associated constant of another type (e.g. u64::SIZE): a symbol
         ENUMS = ("Error", "PlonkVersion", "Selector", "WiredWitness", "WireData")
@@ -915,6 +932,8 @@ class Interp:
         if e["op"] == "!":
             if isinstance(v, bool):
                 return not v
+            if isinstance(v, U64):
+                return U64(~int(v))
             if isinstance(v, VOpaque) and v.name == "not":
                 return v.args[0]
             if isinstance(v, (VOpaque, Sym)):
@@ -994,11 +1013,12 @@ class Interp:
         if op in ("<", "<=", ">", ">="):
             return VOpaque({"<": "lt", "<=": "le", ">": "gt", ">=": "ge"}[op], [l, r])
         if op in ("<<", ">>", "^") and isinstance(l, int) and isinstance(r, int) and not isinstance(l, bool):
+            tag = U64 if isinstance(l, U64) else int
             if op == "^":
-                return l ^ r
+                return tag(l ^ r) if isinstance(l, U64) or isinstance(r, U64) else l ^ r
             if not (0 <= r < 64):
                 raise OutsideFragment("shift amount out of range (would panic / wrap)")
-            return (l << r) & 0xFFFFFFFFFFFFFFFF if op == "<<" else l >> r
+            return tag((int(l) << int(r)) & 0xFFFFFFFFFFFFFFFF) if op == "<<" else tag(int(l) >> int(r))
         if op in ("/", "%") and isinstance(l, int) and isinstance(r, int) and r != 0:
             return l // r if op == "/" else l % r
         if op in ("/", "%"):
@@ -1007,7 +1027,8 @@ class Interp:
             if isinstance(l, bool) and isinstance(r, bool):
                 return (l or r) if op in ("||", "|") else (l and r)
             if isinstance(l, int) and isinstance(r, int):
-                return (l | r) if op == "|" else (l & r)
+                res_ = (int(l) | int(r)) if op == "|" else (int(l) & int(r))
+                return U64(res_) if isinstance(l, U64) or isinstance(r, U64) else res_
             return VOpaque("or" if op in ("||", "|") else "and", [l, r])
         self.fail(e, f"binary operator {op}")
 
@@ -1064,6 +1085,10 @@ class Interp:
                 return
             if isinstance(inner, VStream):
                 self.ctx.event("advance", inner.canon(), canon(val))
+                return
+            if isinstance(inner, VOpaque) and inner.name.startswith("self.") and inner.name.count(".") >= 2:
+                fld_ = ".".join(inner.name.split(".")[:2])
+                self.ctx.event("field_effect", fld_, "write_through:" + inner.name[len(fld_) + 1:], canon(val))
                 return
             return self.assign(target["e"], val, env)
         self.fail(target, f"assignment target {k}")
@@ -1710,6 +1735,17 @@ class Interp:
                         finally:
                             self.inline_depth -= 1
                             self.file_root = saved_root
+        import re as _re
+        qs_ = (f.get("qself") or "").replace(" ", "")
+        mdep = _re.match(r"^<?\s*(JubJubAffine|JubJubExtended|JubJubScalar|BlsScalar|G1Affine|G2Affine|G1Projective)\b", (qs_ or path).strip())
+        if qs_:
+            path = f"<{qs_} as {path.rsplit('::', 1)[0]}>::{segs[-1]}"         # `<T as Trait>::f`: the qualified self type is part of the name
+        if mdep and not any(isinstance(a_, VClosure) for a_ in args):
+            # an associated function of a DEPENDENCY type without a listed meaning: an uninterpreted pure function of its arguments
+            # (compared structurally only; ASSUMED: no side effect, no panic)
+            self.calls.append("UNINTERPRETED-DEPENDENCY-FN:" + path)
+            name_ = _re.sub(r"\s+", "", path)
+            return VOpaque(name_, list(args))
         self.fail(e, f"call of `{path}` (no contract)")
 
     inline_depth = 0
@@ -2036,6 +2072,28 @@ class Interp:
             return len(recv.items) == 0
         if m in PURE_GETTERS and not args and isinstance(recv, (Sym, VOpaque, Poly)):
             return VOpaque(m, [recv])
+        if m in ("wrapping_shl", "wrapping_shr") and isinstance(recv, U64) and len(args) == 1 and isinstance(args[0], int):
+            k_ = int(args[0]) % 64          # u64::wrapping_shl / wrapping_shr mask the shift amount to the type's width
+            return U64(int(recv) << k_) if m == "wrapping_shl" else U64(int(recv) >> k_)
+        if m == "reduce" and not args and isinstance(_deref(recv), (Poly, int)) and not as_poly(_deref(recv)).vars():
+            # `BlsScalar::reduce()` of a CONSTANT: the canonical value, as its four little-endian u64 limbs (field `.0`)
+            v_ = as_poly(_deref(recv)).norm().get((), 0) % R_BLS
+            return VStruct("BlsScalar", {"0": VArr([U64((v_ >> (64 * i_)) & M64) for i_ in range(4)], "array")})
+        if m in ("is_ok", "is_err", "is_some", "is_none") and not args and isinstance(recv, VOpaque) and ("." + m) not in self.contracts \
+                and not (recv.name in ("Some", "None") and len(recv.args) <= 1):
+            return VOpaque(m, [recv])          # a pure observer of an uninterpreted Result / Option
+        if m == "is_some_and" and len(args) == 1 and isinstance(args[0], VClosure) and isinstance(recv, (VOpaque, Sym)):
+            if isinstance(recv, VOpaque) and recv.name in ("Some", "None") and len(recv.args) == (1 if recv.name == "Some" else 0):
+                return self.call_closure(args[0], [recv.args[0]]) if recv.name == "Some" else False
+            body_ = self.call_closure(args[0], [VOpaque("some_of", [recv])])
+            return VOpaque("and", [VOpaque("is_some", [recv]), body_])
+        if isinstance(recv, VOpaque) and recv.name.startswith("self.") and recv.name.count(".") >= 2 and getattr(self, "trace_fields", True) \
+                and m not in READONLY_METHODS and not m.startswith("is_") and ("." + m) not in self.contracts:
+            # a method on the RESULT of an uninterpreted operation on a field of `self` (`self.map.entry(k).or_insert(v)`): still an
+            # uninterpreted effect on that field
+            fld_ = ".".join(recv.name.split(".")[:2])
+            self.ctx.event("field_effect", fld_, recv.name[len(fld_) + 1:] + "." + m, *[canon(x) for x in args])
+            return VOpaque(recv.name + "." + m, [recv] + list(args))
         if m in PURE_BINARY and len(args) == 1 and isinstance(recv, (Sym, VOpaque, Poly, int)) \
                 and not (isinstance(recv, VOpaque) and recv.name in ("Some", "None") and len(recv.args) <= 1):
             return VOpaque(m, [recv, args[0]])
@@ -2054,6 +2112,10 @@ class Interp:
             if isinstance(recv, int) and isinstance(args[0], int):
                 return min(recv, args[0]) if m == "min" else max(recv, args[0])
             return VOpaque(m, [recv, args[0]])
+        if m == "get" and isinstance(recv, VArr) and len(args) == 1 and isinstance(args[0], int) and not isinstance(args[0], bool):
+            # `.get(i)` on a collection of known length: a CONCRETE option
+            i_ = int(args[0])
+            return VOpaque("Some", [recv.items[i_]]) if 0 <= i_ < len(recv.items) else VOpaque("None")
         if m == "get" and isinstance(recv, (Sym, VOpaque)) and len(args) == 1:
             return VOpaque("get", [recv, args[0]])
         if m in ("chunks_exact", "chunks") and isinstance(recv, (Sym, VOpaque)) and len(args) == 1:
